@@ -549,6 +549,8 @@ func runC04(c *Ctx) {
 			c.obFollow("closing notice then Close", f, func(x ssa.Instruction) bool { return x == site }, []string{lClose}, nil, nil)
 		})
 	}
+	// the closing notice is a second reply: tolerated only where the line was not a command at all
+	ruleProtocolErrorSites(c)
 
 	// ---------- R-reply-const ----------
 	R.Rule("R-reply-const", "E8 constant table", "every constant reply code is in 200..599 and its constant enhanced code has the class of the reply code; replies without enhanced code only for greeting, EHLO list, 334, 354", 60)
